@@ -37,6 +37,7 @@ class Injector:
         self._fg_k = 0
         self.line_targets = {}
         self.line_delay = {}
+        self.id_key = "id"  # the Balancer's id column (public constructor argument id_col)
 
     # ------------------------------------------------------------ helpers
     @staticmethod
@@ -70,7 +71,7 @@ class Injector:
         orig_fit = GD.MCSMissingGraphAnalyzer.fit
 
         def fit(reaction_dict, *a, **k):
-            rid = str(reaction_dict.get("id"))
+            rid = str(reaction_dict.get(inj.id_key))
             ci = inj.cond_index(k)
             inj._tls.job = (rid, ci)
             inj._tls.fmcs_k = 0
@@ -111,7 +112,7 @@ class Injector:
             t0 = time.time()
             out = orig_safe(data_dict, *a, **k)
             dt = time.time() - t0
-            rid = str(data_dict.get("id"))
+            rid = str(data_dict.get(inj.id_key))
             issue = out.get(k.get("issue_col", "issue"), "")
             inj.note("search_done", rid, inj.cond_index(k), round(dt, 3))
             if _TIMEOUT_RX.search(str(issue)) or dt >= 0.98 * inj.budget:  # by wording or by duration
@@ -179,7 +180,7 @@ class Injector:
         orig_fgd = MS.find_graph_dict
 
         def find_graph_dict(mcs_dict, *a, **k):
-            inj._fg_ids = [str(e.get("id")) for e in mcs_dict]
+            inj._fg_ids = [str(e.get(inj.id_key)) for e in mcs_dict]
             inj._fg_k = 0
             return orig_fgd(mcs_dict, *a, **k)
 
